@@ -1,10 +1,10 @@
-SPECIFICATION Spec
+SPECIFICATION SpecP
 CONSTANTS
-  MaxN = 5
+  MaxN = 6
   Steps = {1, 2, 3}
   Cfgs <- AllCfgs
-  WriteVals <- OneVal
+  WriteVals <- TwoVals
   EmitOps <- NoEmit
 VIEW absvars
 INVARIANTS TypeOK Laws
-PROPERTIES PostfixReturnsOld ObserversPure OnlyWritesWrite ExtAgrees ResultsInRange
+PROPERTIES PostfixReturnsOld ObserversPure OnlyWritesWrite ExtAgrees ResultsInRange AlgoLaws ValueInitLaws
